@@ -8,7 +8,8 @@
 //! * the tokens after `|` are the raw store the REAL `check(read_data)` and the real read-back run on.
 //! `exec` recomputes the abstraction from the raw store (so a generator bug cannot hide) and prints
 //!   `errs=<sorted Error-level finding kinds|none|cmd-err> restore=<ok|bad|->`   (`-` when errs != none)
-//! or `oracle-fail:silent:<label-class>` when check is silent although a snapshot does not read back.
+//! or `oracle-fail:silent:<label-class>` when check is silent although a snapshot does not read back (`silent-dup` when the damage
+//! is confined to redundant copies of blobs stored twice — open known finding).
 //! The store bytes depend on random nonces, so generated lines differ between runs; every line is
 //! self-contained and replays exactly.
 use std::collections::{BTreeMap, BTreeSet};
@@ -20,7 +21,7 @@ use sha2::{Digest, Sha256};
 use crate::repo::{FILE_TYPES, MemBackend, MemSource, RepoHandle, SrcEntry, SrcKind, Store, ft_idx};
 use crate::util::{Rng, Stats, hex, unhex};
 use rustic_core::repofile::{
-    BlobType, FileType, IndexBlob, IndexFile, IndexPack, MasterKey, Metadata, Node, NodeType, SnapshotFile, Tree,
+    BlobType, DeleteOption, FileType, IndexBlob, IndexFile, IndexPack, MasterKey, Metadata, Node, NodeType, SnapshotFile, Tree,
 };
 use rustic_core::verif::check as hk;
 use rustic_core::{
@@ -114,6 +115,8 @@ impl ReadSource for SizedSource {
     }
 }
 
+pub const MAX_READ_BACK_DEPTH: usize = 200;
+
 /// canonical digest of everything below `tree` as read through `ls` + `dump`
 pub fn tree_digest<S: IndexedFull>(repo: &Repository<S>, tree: rustic_core::TreeId) -> Result<String, String> {
     use std::os::unix::ffi::OsStrExt;
@@ -123,6 +126,12 @@ pub fn tree_digest<S: IndexedFull>(repo: &Repository<S>, tree: rustic_core::Tree
     let it = repo.ls(&root, &LsOptions::default()).map_err(|e| crate::util::errkind(&e))?;
     for item in it {
         let (path, node) = item.map_err(|e| crate::util::errkind(&e))?;
+        // The node streamer of ls / restore has no visited set: when damage makes a tree id yield the content of one of its
+        // ancestors (the pack of a child tree overwritten by the same-layout pack of its parent) it descends for ever.  No
+        // generated source is deeper than a dozen levels: such a snapshot does not read back.
+        if path.components().count() > MAX_READ_BACK_DEPTH {
+            return Err("tree-cycle".to_string());
+        }
         h.update(path.as_os_str().as_bytes());
         h.update([0]);
         match &node.node_type {
@@ -258,7 +267,14 @@ pub fn abstract_state_with(key: &MasterKey, store: &Store, meta: bool) -> Vec<St
             None => snaps_ok = false,
             Some(s) => {
                 let auth = sha_hex(&b) == id.to_hex().as_str();
-                stoks.push(format!("s:{}:{}", it.id(s.tree.to_hex().as_str()), u8::from(auth)));
+                // the delete mark of the snapshot file (`K` = delete-never, `A<unix seconds>` = delete-after); snapshots
+                // without one keep the 3-field form
+                let mark = match &s.delete {
+                    DeleteOption::NotSet => String::new(),
+                    DeleteOption::Never => ":K".to_string(),
+                    DeleteOption::After(t) => format!(":A{}", t.timestamp().as_second()),
+                };
+                stoks.push(format!("s:{}:{}{mark}", it.id(s.tree.to_hex().as_str()), u8::from(auth)));
             }
         }
     }
@@ -488,29 +504,101 @@ pub fn ambiguous(key: &MasterKey, store: &Store) -> bool {
     false
 }
 
+/// cases that did not come back within the time limit so far (their threads are still parked somewhere)
+static HUNG_CASES: std::sync::atomic::AtomicUsize = std::sync::atomic::AtomicUsize::new(0);
+
+/// time limit of ONE case (a case takes milliseconds; `check` and the read-back run on threads — tree loaders, the shared
+/// rayon pool — so a lost wake-up or a dead worker would otherwise block the whole run until `./check` kills it, without
+/// an observation): 60 s, 15 s once a case has hung (`VH_C05_CASE_TIMEOUT_S` overrides the first)
+fn case_timeout() -> std::time::Duration {
+    let first = std::env::var("VH_C05_CASE_TIMEOUT_S").ok().and_then(|v| v.parse().ok()).unwrap_or(60u64);
+    std::time::Duration::from_secs(if HUNG_CASES.load(std::sync::atomic::Ordering::SeqCst) == 0 { first } else { first.min(15) })
+}
+
+/// Is the damage confined to REDUNDANT copies — is some live pack missing or not the bytes its name says, while every blob any
+/// such pack holds has another live index entry in an undamaged pack?  (A backup can store one chunk twice — two files of equal
+/// content handled by different packer threads.)  Check reads the one copy its own index look-up returns; a reader whose index
+/// was sorted differently may be handed the other one: open known finding (`oracle-fail:silent-dup`).
+pub fn redundant_copy_damaged(key: &MasterKey, store: &Store) -> bool {
+    let mut live: Vec<IndexPack> = Vec::new();
+    for (_, b) in files_of(store, FileType::Index) {
+        if let Some(f) = decode_file(key, &b).and_then(|p| serde_json::from_slice::<IndexFile>(&p).ok()) {
+            live.extend(f.packs);
+        }
+    }
+    let damaged = |p: &IndexPack| match store.get(&(ft_idx(FileType::Pack), *p.id)) {
+        None => true,
+        Some(data) => sha_hex(data) != p.id.to_hex().as_str(),
+    };
+    let bad: Vec<&IndexPack> = live.iter().filter(|p| damaged(p)).collect();
+    !bad.is_empty()
+        && bad.iter().all(|p| {
+            p.blobs.iter().all(|b| live.iter().any(|q| q.id != p.id && !damaged(q) && q.blob_type() == p.blob_type() && q.blobs.iter().any(|c| c.id == b.id)))
+        })
+}
+
 pub fn exec(toks: &[&str]) -> String {
     if toks.len() < 3 || toks[0] != "chk" {
         return "bad-op".into();
     }
     let label = toks[1];
+    let class = label.split('.').take(2).collect::<Vec<_>>().join(".");
     let Some(bar) = toks.iter().position(|t| *t == "|") else { return "bad-op".into() };
     let abs: Vec<String> = toks[2..bar].iter().map(|s| (*s).to_string()).collect();
     let Some((key, store, expected)) = parse_store(&toks[bar + 1..]) else { return "bad-op".into() };
-    let out = crate::util::guarded(move || {
+    // Every case runs on a thread of its own under a watchdog: it ends with an observation, never with a hang.  After three
+    // hung cases the shared pools may be blocked for good; the rest of the run is answered at once (and loudly).
+    if HUNG_CASES.load(std::sync::atomic::Ordering::SeqCst) >= 3 {
+        return format!("oracle-fail:hang:not-run-after-3-hung-cases:{class}");
+    }
+    let (tx, rx) = std::sync::mpsc::channel::<String>();
+    // 1 = in `check`, 2 = in the read-back (which starts only after a CLEAN check)
+    let phase = std::sync::Arc::new(std::sync::atomic::AtomicU8::new(0));
+    let phase2 = phase.clone();
+    let spawned = std::thread::Builder::new().name("c05-case".into()).stack_size(16 << 20).spawn(move || {
+        _ = tx.send(exec_case(abs, key, store, expected, &phase2));
+    });
+    if spawned.is_err() {
+        return "panic:cannot-spawn-case-thread".into();
+    }
+    let out = match rx.recv_timeout(case_timeout()) {
+        Ok(out) => out,
+        Err(std::sync::mpsc::RecvTimeoutError::Timeout) => {
+            _ = HUNG_CASES.fetch_add(1, std::sync::atomic::Ordering::SeqCst);
+            return if phase.load(std::sync::atomic::Ordering::SeqCst) == 2 {
+                // check came back clean and reading the snapshots back does not end: silent damage
+                format!("oracle-fail:silent:{class}:read-back-never-ends")
+            } else {
+                format!("oracle-fail:hang:check:{class}")
+            };
+        }
+        Err(std::sync::mpsc::RecvTimeoutError::Disconnected) => "panic:case-thread-died".to_string(),
+    };
+    if out == "oracle-fail:silent" || out == "oracle-fail:silent-dup" { format!("{out}:{class}") } else { out }
+}
+
+fn exec_case(abs: Vec<String>, key: MasterKey, store: Store, expected: BTreeMap<String, String>, phase: &std::sync::atomic::AtomicU8) -> String {
+    crate::util::guarded(move || {
         let h = RepoHandle { be: MemBackend::from_store(store.clone()), hot: None, key: key.clone() };
         // op lines from before the metadata fields (corpus): file-node tokens have 4 fields
         let old_form = abs.iter().any(|t| t.starts_with("n:f:") && t.split(':').count() == 4);
         if abstract_state_with(&key, &store, !old_form) != abs {
             return "oracle-fail:abstraction-mismatch".to_string();
         }
+        phase.store(1, std::sync::atomic::Ordering::SeqCst);
         let raw = real_check(&h);
         let errs = match &raw {
             Ok(e) => canon_errs(e.clone()),
             Err(_) => "cmd-err".to_string(),
         };
-        let ok = real_restore_listed_ok(&h, &expected);
+        // The read-back verdict matters only when check is clean (see below), and only then is it computed: on a repository
+        // that check reports as damaged the readers need not even terminate (a tree id that yields the content of its own
+        // parent sends `ls` / restore, which keep no visited set, down an endless path — this, not the seeded change, is what
+        // made the first run on seed C05-7 hang for 900 s: the read-back used to run unconditionally).
+        phase.store(2, std::sync::atomic::Ordering::SeqCst);
+        let ok = errs != "none" || real_restore_listed_ok(&h, &expected);
         if errs == "none" && !ok {
-            return "oracle-fail:silent".to_string();
+            return if redundant_copy_damaged(&key, &store) { "oracle-fail:silent-dup".to_string() } else { "oracle-fail:silent".to_string() };
         }
         if ambiguous(&key, &store) {
             let e1 = match raw {
@@ -530,12 +618,7 @@ pub fn exec(toks: &[&str]) -> String {
             return format!("errs={errs} restore=-");
         }
         format!("errs={errs} restore={}", if ok { "ok" } else { "bad" })
-    });
-    if out == "oracle-fail:silent" {
-        format!("oracle-fail:silent:{}", label.split('.').take(2).collect::<Vec<_>>().join("."))
-    } else {
-        out
-    }
+    })
 }
 
 // ---------------------------------------------------------------------------------------------------------
@@ -901,6 +984,209 @@ pub fn build_pruned(rng: &mut Rng, stats: &mut Stats) -> Option<Built> {
     Some(Built { h, expected })
 }
 
+/// A CHAIN of single-tree packs of identical layout in which each tree is the parent of the previous one, every link being
+/// the root of a kept snapshot: backup k stores the root tree `{node → subtree: root of backup k-1}` (the node is handed to the
+/// archiver with its subtree, as in `build_file_subtree`; compression off, so the tree packs of all links but the first have the
+/// same size).  Exchanging (or replacing) the packs of a parent and its child makes the child's id yield the parent's content —
+/// a tree that seemingly contains itself: a reader without a visited set (`ls`, restore; `TreeStreamerOnce` has one) never comes
+/// back from the child's snapshot.
+pub fn build_tree_chain(rng: &mut Rng, stats: &mut Stats) -> Option<Built> {
+    let mut cfg = ConfigOptions::default();
+    let v1 = rng.chance(1, 2);
+    stats.hit(if v1 { "cfg.v1" } else { "cfg.v2" });
+    if !v1 {
+        cfg.set_compression = Some(0);
+    }
+    let h = init_repo(&cfg, v1)?;
+    let clen = 7 + rng.below(50) as usize;
+    let content = rng.bytes(clen);
+    let links = 3 + rng.below(2) as i64;
+    let repo = open_nc(&h).ok()?.to_indexed_ids().ok()?;
+    let s0 = SingleFileSource { name: "node".into(), content: content.clone(), mtime_s: 1_600_000_000 };
+    let mut prev = repo.archive(&BackupOptions::default(), &s0, SnapshotFile::default(), &[PathBuf::from("node")]).ok()?;
+    for k in 1..links {
+        let repo = open_nc(&h).ok()?.to_indexed_ids().ok()?;
+        let s = FileWithSubtreeSource { name: "node".into(), content: content.clone(), mtime_s: 1_600_000_000 + k, subtree: prev.tree };
+        // no parent: the node must be stored as handed over
+        let bo = BackupOptions::default().parent_opts(rustic_core::ParentOptions::default().force(true));
+        prev = repo.archive(&bo, &s, SnapshotFile::default(), &[PathBuf::from("node")]).ok()?;
+    }
+    // how many tree packs share their size with another one?
+    let packs = index_packs(&h.key, &h.be.store());
+    let sizes: Vec<u32> = packs.iter().filter(|p| p.blob_type() == BlobType::Tree).map(|p| p.blobs.iter().map(|b| b.location.length).sum()).collect();
+    let same = sizes.iter().enumerate().filter(|(i, a)| sizes.iter().enumerate().any(|(j, b)| j != *i && b == *a)).count();
+    stats.hit(format!("repo.tree-chain.same-size-tree-packs.{}", Stats::bucket(same)));
+    stats.hit("repo.tree-chain(parent-child-packs-of-equal-layout)");
+    let expected = all_digests(&h).ok()?;
+    if expected.len() != links as usize {
+        return None;
+    }
+    Some(Built { h, expected })
+}
+
+fn zoned_utc(secs: i64) -> rustic_core::jiff::Zoned {
+    rustic_core::jiff::Timestamp::from_second(secs).unwrap().to_zoned(rustic_core::jiff::tz::TimeZone::UTC)
+}
+
+/// Snapshots carrying DELETE MARKS (`backup --delete-after` / `--delete-never`): 3–5 backups in random mark order — always one
+/// whose delete-after time has long passed (snapshot time 2000, delete-after 2001 … 2019), one whose delete-after time is far in
+/// the future (year 2100+), one `delete-never`, optionally plain ones.  Every backup has a directory of its own (`only<k>/`, 1–2
+/// files of random content, so data blobs, that directory's tree and the root tree are referenced by this snapshot alone) next
+/// to a shared, unchanged part, which a first plain backup has stored on its own.  Nobody has run `forget`: all of them are
+/// listed and restorable.
+pub fn build_delete_marks(rng: &mut Rng, stats: &mut Stats) -> Option<Built> {
+    let (cfg, v1) = meta_cfg(rng, stats);
+    let h = init_repo(&cfg, v1)?;
+    let mut marks: Vec<u8> = vec![0, 1, 2]; // 0 = after (past), 1 = after (future), 2 = never, 3 = not set
+    for _ in 0..rng.below(3) {
+        marks.push(*rng.pick(&[0u8, 3, 3]));
+    }
+    for i in (1..marks.len()).rev() {
+        marks.swap(i, rng.below(i as u64 + 1) as usize);
+    }
+    let shared = [SrcEntry::file(&[b"shared", b"s0"], &rng.bytes(300)), SrcEntry::file(&[b"shared", b"s1"], &rng.bytes(2500))];
+    // the shared part is backed up first on its own (a plain snapshot): the packs of every later backup then hold ONLY what that
+    // snapshot alone refers to (its directory's chunks and tree, its root tree) — otherwise the first marked snapshot's own blobs
+    // would sit in packs that the other snapshots keep in check's read set anyway
+    {
+        let repo = open_nc(&h).ok()?.to_indexed_ids().ok()?;
+        _ = repo.archive(&BackupOptions::default(), &MemSource::new(shared.to_vec()), SnapshotFile::default(), &[PathBuf::from(crate::repo::SRC_ROOT)]).ok()?;
+    }
+    for (k, m) in marks.iter().enumerate() {
+        let mut es = shared.to_vec();
+        let dir = format!("only{k}").into_bytes();
+        for j in 0..1 + rng.below(2) {
+            let len = *rng.pick(&[40usize, 700, 3000]);
+            es.push(SrcEntry::file(&[&dir, format!("u{j}").as_bytes()], &rng.bytes(len)));
+        }
+        let mut snap = SnapshotFile::default();
+        match m {
+            0 => {
+                // saved in 2000 with a delete-after time between 2001 and 2019
+                snap.time = zoned_utc(946_684_800 + rng.below(1_000_000) as i64);
+                snap.delete = DeleteOption::After(zoned_utc(978_307_200 + rng.below(600_000_000) as i64));
+                stats.hit("snap.delete-after.passed");
+            }
+            1 => {
+                snap.delete = DeleteOption::After(zoned_utc(4_102_444_800 + rng.below(600_000_000) as i64));
+                stats.hit("snap.delete-after.future");
+            }
+            2 => {
+                snap.delete = DeleteOption::Never;
+                stats.hit("snap.delete-never");
+            }
+            _ => stats.hit("snap.delete-not-set"),
+        }
+        let repo = open_nc(&h).ok()?.to_indexed_ids().ok()?;
+        let saved = repo.archive(&BackupOptions::default(), &MemSource::new(es), snap, &[PathBuf::from(crate::repo::SRC_ROOT)]).ok()?;
+        // the mark must really be in the stored file
+        let want = match m {
+            0 | 1 => matches!(saved.delete, DeleteOption::After(_)),
+            2 => matches!(saved.delete, DeleteOption::Never),
+            _ => matches!(saved.delete, DeleteOption::NotSet),
+        };
+        if !want {
+            stats.hit("snap.delete-mark-lost");
+            return None;
+        }
+    }
+    stats.hit("repo.delete-marks");
+    let expected = all_digests(&h).ok()?;
+    if expected.len() != marks.len() + 1 {
+        return None;
+    }
+    Some(Built { h, expected })
+}
+
+/// PARTLY USED packs: a first backup of `keep/` (2–4 files) and `drop/` (1–3 files), a second one in which `drop/` is gone and a
+/// new directory has appeared, then the first snapshot is forgotten and NOBODY PRUNES.  With pack sizes that put several blobs
+/// into one pack (the default, or 6000 bytes) the data packs of the first backup hold chunks of `keep/` (still used) next to
+/// chunks of `drop/` (used by no snapshot any more), and its tree pack holds the tree of `keep/` (used) next to the first root
+/// tree and the tree of `drop/` (unused).  Files are stored in path order, so the used and the unused blobs of a pack are its
+/// first resp. last ones or the other way round (`drop` < `keep` < `later`): optionally the dropped directory sorts last.
+pub fn build_partly_used(rng: &mut Rng, stats: &mut Stats) -> Option<Built> {
+    let mut cfg = ConfigOptions::default();
+    let v2 = rng.chance(2, 3);
+    stats.hit(if v2 { "cfg.v2" } else { "cfg.v1" });
+    if v2 {
+        cfg.set_compression = Some(*rng.pick(&[0i32, 3, -3]));
+    }
+    if rng.chance(1, 2) {
+        cfg.set_datapack_size = Some(bytesize::ByteSize(6000));
+        cfg.set_treepack_size = Some(bytesize::ByteSize(4000));
+        stats.hit("cfg.tiny-packs");
+    }
+    cfg.set_chunker = Some(rustic_core::repofile::Chunker::FixedSize);
+    cfg.set_chunk_size = Some(bytesize::ByteSize(*rng.pick(&[512u64, 1024, 4096])));
+    let h = init_repo(&cfg, !v2)?;
+    let dropped: &[u8] = if rng.chance(1, 2) { b"drop" } else { b"zdrop" };
+    let mut keep = Vec::new();
+    for j in 0..2 + rng.below(3) {
+        let len = *rng.pick(&[40usize, 700, 1500]);
+        keep.push(SrcEntry::file(&[b"keep", format!("k{j}").as_bytes()], &rng.bytes(len)));
+    }
+    let mut first = keep.clone();
+    for j in 0..1 + rng.below(3) {
+        let len = *rng.pick(&[40usize, 700, 1500]);
+        first.push(SrcEntry::file(&[dropped, format!("d{j}").as_bytes()], &rng.bytes(len)));
+    }
+    let mut second = keep.clone();
+    second.push(SrcEntry::file(&[b"later", b"l0"], &rng.bytes(900)));
+    let mut ids = vec![];
+    for es in [first, second] {
+        let repo = open_nc(&h).ok()?.to_indexed_ids().ok()?;
+        ids.push(repo.archive(&BackupOptions::default(), &MemSource::new(es), SnapshotFile::default(), &[PathBuf::from(crate::repo::SRC_ROOT)]).ok()?.id);
+    }
+    let repo = open_nc(&h).ok()?;
+    repo.delete_snapshots(&[ids[0]]).ok()?;
+    // how many packs hold blobs the remaining snapshot uses next to blobs nothing uses any more?
+    let n = partly_used_packs(&h)?;
+    stats.hit(format!("repo.partly-used-packs.{}", Stats::bucket(n)));
+    if n == 0 {
+        return None;
+    }
+    stats.hit("repo.forgotten-not-pruned(partly-used-packs)");
+    let expected = all_digests(&h).ok()?;
+    Some(Built { h, expected })
+}
+
+/// number of indexed packs holding both a blob reachable from a stored snapshot and a blob that is not
+fn partly_used_packs(h: &RepoHandle) -> Option<usize> {
+    let store = h.be.store();
+    let packs = index_packs(&h.key, &store);
+    let loc: BTreeMap<String, (Id, u32, u32, bool)> = packs
+        .iter()
+        .flat_map(|p| p.blobs.iter().map(|b| (b.id.to_hex().to_string(), (*p.id, b.location.offset, b.location.length, b.location.uncompressed_length.is_some()))))
+        .collect();
+    let read = |id: &str| -> Option<Vec<u8>> {
+        let (pack, off, len, c) = loc.get(id)?;
+        let data = store.get(&(ft_idx(FileType::Pack), *pack))?;
+        let raw = hk::decrypt(&h.key, data.get(*off as usize..(*off + *len) as usize)?)?;
+        if *c { hk::zstd_decode(&raw) } else { Some(raw) }
+    };
+    let mut used: BTreeSet<String> = BTreeSet::new();
+    let mut queue: Vec<String> = files_of(&store, FileType::Snapshot)
+        .iter()
+        .filter_map(|(_, b)| decode_file(&h.key, b).and_then(|p| serde_json::from_slice::<SnapshotFile>(&p).ok()))
+        .map(|s| s.tree.to_hex().to_string())
+        .collect();
+    while let Some(t) = queue.pop() {
+        if !used.insert(t.clone()) {
+            continue;
+        }
+        let tree: Tree = serde_json::from_slice(&read(&t)?).ok()?;
+        for n in &tree.nodes {
+            if let Some(st) = n.subtree {
+                queue.push(st.to_hex().to_string());
+            }
+            for c in n.content.iter().flatten() {
+                _ = used.insert(c.to_hex().to_string());
+            }
+        }
+    }
+    Some(packs.iter().filter(|p| p.blobs.iter().any(|b| used.contains(b.id.to_hex().as_str())) && p.blobs.iter().any(|b| !used.contains(b.id.to_hex().as_str()))).count())
+}
+
 fn index_packs_marked(key: &MasterKey, store: &Store) -> usize {
     let mut n = 0;
     for (_, b) in files_of(store, FileType::Index) {
@@ -958,7 +1244,15 @@ fn damages(b: &Built, rng: &mut Rng, thorough: bool) -> Vec<(String, Store)> {
                     }
                     let mut sorted = p.blobs.clone();
                     sorted.sort_by_key(|b| b.location.offset);
-                    for bl in sorted.first().into_iter().chain(sorted.last()) {
+                    // every blob of a pack of up to 8 blobs; of a larger one the first, the last and 4 random ones (a pack can
+                    // hold blobs that some snapshot uses next to blobs that nothing uses any more)
+                    let mut picks: Vec<usize> = if sorted.len() <= 8 { (0..sorted.len()).collect() } else { vec![0, sorted.len() - 1] };
+                    if sorted.len() > 8 {
+                        for _ in 0..4 {
+                            picks.push(rng.below(sorted.len() as u64) as usize);
+                        }
+                    }
+                    for bl in picks.into_iter().map(|i| &sorted[i]) {
                         // past the 16-byte nonce, inside the ciphertext
                         blob_poss.push(bl.location.offset as usize + 16 + (bl.location.length as usize).saturating_sub(32) / 2);
                     }
@@ -1061,29 +1355,32 @@ pub fn line(label: &str, key: &MasterKey, store: &Store, expected: &BTreeMap<Str
 }
 
 pub fn generate(thorough: bool, rng: &mut Rng, ops: &mut Vec<String>, stats: &mut Stats) {
-    let n_repos = if thorough { 60 } else { 8 };
+    let n_repos = if thorough { 60 } else { 11 };
     let per_repo_cap = if thorough { 300 } else { 110 };
+    let mut late: Vec<String> = Vec::new();
     for r in 0..n_repos {
-        // the first repository of every run is the stdin-style one (packs holding only a root tree)
-        // … the third one (and every fourth after it) has a forget/prune history with packs marked for deletion
-        let built = if r == 0 {
-            build_stdin_pair(stats, rng.chance(1, 2))
-        } else if r % 4 == 2 {
-            build_pruned(rng, stats)
-        } else if r == 3 {
-            // … the fourth one reaches a tree only through the subtree of a file node
-            build_file_subtree(stats, rng.chance(1, 2))
-        } else if r % 8 == 5 {
-            // real stdin snapshots: nodes with recorded size 0 and real content
-            build_stdin_real(rng, stats)
-        } else if r % 8 == 4 {
+        // repository kinds by position (quick = the first 11 of a round of 12, thorough = 5 rounds): the first repository of every run is the
+        // stdin-style pair (packs holding only a root tree); the kinds that need a history come early
+        let built = match r % 12 {
+            0 if r == 0 => build_stdin_pair(stats, rng.chance(1, 2)),
+            // backup, backup, forget the first, no prune: packs holding used next to unused blobs
+            1 => build_partly_used(rng, stats),
+            // snapshots with delete marks (delete-after passed / in the future, delete-never), each holding data of its own
+            2 => build_delete_marks(rng, stats),
+            // a tree reached only through the subtree of a file node
+            3 if r == 3 => build_file_subtree(stats, rng.chance(1, 2)),
             // a hardlinked file overwritten in place between backups (same inode and link count, new content)
-            build_hardlink_history(rng, stats)
-        } else if r % 8 == 7 {
+            4 => build_hardlink_history(rng, stats),
+            // real stdin snapshots: nodes with recorded size 0 and real content
+            5 => build_stdin_real(rng, stats),
+            // forget/prune history with packs marked for deletion, the forgotten data uploaded again
+            6 | 9 => build_pruned(rng, stats),
             // files whose recorded size is not the length of their content
-            build_size_mismatch(rng, stats)
-        } else {
-            build_repo(rng, stats, r == 1)
+            7 => build_size_mismatch(rng, stats),
+            // a chain of directory trees of identical layout shared by two snapshots (parent/child tree packs of equal size)
+            10 => build_tree_chain(rng, stats),
+            // 1–3 backups of small trees or stdin-style single files (repository 8: stdin-style only)
+            _ => build_repo(rng, stats, r == 8),
         };
         let Some(b) = built else {
             stats.hit("repo.build-failed");
@@ -1101,9 +1398,29 @@ pub fn generate(thorough: bool, rng: &mut Rng, ops: &mut Vec<String>, stats: &mu
                 _ = ds.swap_remove(i);
             }
         }
+        // `./check` turns only the first 40 disagreeing cases of a run into reports, so within a repository the faults that
+        // nothing but a look-up or a read of the data can find (bit flips, exchanged / replaced files, dropped index entries, a
+        // removed index file — the candidates for SILENT damage) go before those the listings already show (removed or
+        // truncated packs, duplicated entries); stable, so the generation order is kept inside a class
+        let class = |l: &str| -> u8 {
+            if l == "none" {
+                0
+            } else if l == "flip.pack.blob" || l == "index.drop-pack" || l == "remove.index" {
+                1
+            } else if l.starts_with("flip.") || l.starts_with("swap.") || l.starts_with("replace.") || l == "index.drop-blob" || l.ends_with(".snapshot") || l.starts_with("truncate.snapshot") {
+                2
+            } else {
+                3
+            }
+        };
+        ds.sort_by_key(|(l, _)| class(l));
         for (label, store) in ds {
             stats.hit(format!("fault.{label}"));
-            ops.push(line(&label, &b.h.key, &store, &b.expected));
+            let l = line(&label, &b.h.key, &store, &b.expected);
+            // `./check` turns only the first 40 disagreeing cases of a run into reports: the cases of the open known finding
+            // (snapshot files exchanged / overwritten by a sibling, DESIGN §7 #12 — three or four per repository) go last
+            if label == "swap.snapshot" || label == "swap.snapshot.samesize" || label == "replace.snapshot" { late.push(l) } else { ops.push(l) }
         }
     }
+    ops.append(&mut late);
 }
